@@ -161,7 +161,11 @@ func checkRoundTrip(c *facet.Ctx, in codecgen.Case) error {
 		return f
 	}
 	if err != nil {
-		return facet.Failf("decode-error", "Unmarshal of the encoder's own output %s under %s failed: %v", clip(b), in.C, err)
+		f := facet.Failf("decode-error", "Unmarshal of the encoder's own output %s under %s failed: %v", clip(b), in.C, err)
+		if mixed {
+			f.With("mixed", "true")
+		}
+		return f
 	}
 	if mixed {
 		c.Label("mixed-but-decoded")
